@@ -310,8 +310,13 @@ def voro_run(cmdline, shell=True, check=False, **kw):
         part2 = f"{ids[k]} {nf} " + " ".join(str(x) for x in neigh) + " "
         part3 = f"{ids[k]} {nf} " + " ".join(f"{x:g}" for x in areas)
         lines.append(part0 + "@" + part1 + "@" + part2 + "@" + part3 + "\n")
+    # voro++ emits the cells block by block of its spatial grid, not in id order: a fixed
+    # permutation derived from the input stands in for that
+    import hashlib
+    seed = int(hashlib.sha256(("%d|" % len(lines) + cmdline if isinstance(cmdline, str) else str(len(lines))).encode()).hexdigest()[:8], 16)
+    order = np.random.default_rng(seed).permutation(len(lines))
     with open(fname + ".vol", "w", encoding="utf-8") as f:
-        f.write("".join(lines))
+        f.write("".join(lines[k] for k in order))
     return _Completed(0)
 
 
